@@ -509,4 +509,40 @@ def check_C18(pid, tier, seed, verdict):
                  "reload() is called directly", "rustls and aws-lc-rs are trusted for signature verification"]
 
 
-CHECKS = {"C18": check_C18, "C15": check_C15, "C06": check_C06, "C17": check_C17, "C16": check_C16, "C07": check_C07, "C12": check_C12, "C13": check_C13, "C10": check_C10, "C14": check_C14, "C09": check_C09, "C11": check_C11, "C01": check_C01, "C02": check_C02, "C03": check_C03, "C04": check_C04, "C05": check_C05}
+# ------------------------------------------------------------------------------------------- C19
+def check_C19(pid, tier, seed, verdict):
+    thorough = tier == "thorough"
+    mcs = [mc_must_fail(pid, "MC_SchemePush.tla", "MC_SchemePush_dev.cfg", workers=2)]
+    g = V.run_gen(pid, "MC_SchemePush.tla", "MC_SchemePush.cfg", workers=2)
+    mcs.append(g)
+    scs = V.sample(g["scenarios"], None if thorough else 60, seed)
+    sp = os.path.join(V.workdir(pid), "gen.scn")
+    V.write_scenarios(sp, scs)
+    run = V.run_harness(pid, "schemepush", seed, tier, sp)
+    res = V.run_trace(pid, "Trace_SchemePush.tla", "Trace_SchemePush.cfg", run["trace"])
+    verdict.add_trace_result("announce", res, run)
+    # the shaping of the packets after each push: same children, validated by the padding acceptor
+    prun = dict(trace=run["trace"] + ".pad", descr=run["descr"])
+    pres = V.run_trace(pid, "Trace_Padding.tla", "Trace_Padding.cfg", prun["trace"])
+    for b in pres["bad"]:
+        b["why"] = "after a scheme push: " + b["why"]
+    verdict.add_trace_result("shape", pres, prun)
+    cnt, pc = res["cnt"], pres["cnt"]
+    V.log(f"[{pid}] trace: {cnt['scn']} fresh processes, {cnt['announce']} sessions announced, {pc['scn']} pushed in-memory sessions, "
+          f"{pc['packet']} packets judged, bad={len(res['bad'])}+{len(pres['bad'])}")
+    cov = _cov(mcs, cnt["scn"] + pc["scn"], cnt["nontrivial"] + pc["nontrivial"],
+               "scenario = one history of MC_SchemePush (built-in default used before or not x 4 sessions against servers running "
+               "D / S1 / S2 / an unparseable scheme; all 512 enumerated, quick replays 60) executed in a FRESH child process (the "
+               "state is process-wide): a real Client against a scripted TLS server that records the digest each session announces "
+               "and pushes its scheme when it differs, a second request on every pushed session; and, in another fresh process, "
+               "in-memory client sessions that receive the push between two packets, whose later packets are judged by the padding "
+               "acceptor under the scheme the reference says is in force; non-trivial = processes/sessions with at least one "
+               "announcement or packet judged", V.sample_descrs(run["descr"]), True,
+               dict(behaviours_generated=len(g["scenarios"]), behaviours_replayed=len(scs), trace_events=res["lines"] + pres["lines"],
+                    event_counts=cnt, padding_event_counts=pc))
+    return cov, ["the scripted TLS server closes each session after 250 ms so that the next request dials a new one",
+                 "write sizes cannot be observed through TLS: shaping after a push is observed on in-memory sessions in a child "
+                 "process with the same process-wide state rules"]
+
+
+CHECKS = {"C19": check_C19, "C18": check_C18, "C15": check_C15, "C06": check_C06, "C17": check_C17, "C16": check_C16, "C07": check_C07, "C12": check_C12, "C13": check_C13, "C10": check_C10, "C14": check_C14, "C09": check_C09, "C11": check_C11, "C01": check_C01, "C02": check_C02, "C03": check_C03, "C04": check_C04, "C05": check_C05}
